@@ -76,9 +76,10 @@ Definition show_task_item (x : N * output) : list string :=
   match snd x with
   | OWire tx id => ["w" ++ show_N tx ++ ":" ++ show_nat id ++ "@" ++ show_N (fst x)]
   | OWireFail tx id => ["x" ++ show_N tx ++ ":" ++ show_nat id]
+  | OListen LConnected => ["lN@" ++ show_N (fst x)]
   | OListen l => [show_cstate l]
   | ODial => ["d"]
-  | OEnd e => ["e" ++ show_serr e]
+  | OEnd e => ["e" ++ show_serr e ++ "@" ++ show_N (fst x)]
   | OComplete _ _ | OStamp _ _ => []
   end.
 (* the completion log (the check sorts it by request id: future-style completions are observed
